@@ -3,7 +3,7 @@ package harness
 // A small Wing–Gong style linearizability checker for complete histories of
 // at most 24 operations over a map with at most linKeys small integer keys.
 
-const linKeys = 20
+const linKeys = 32
 
 const absent = int64(-1 << 62)
 
